@@ -2520,6 +2520,9 @@ class Recipe:
             raise ValueError("Invalid destinations.")
 
         delta = 0
+        # what the sums below are made of: the total amount and the number of container amounts that went into them
+        scale = 0
+        terms = 0
 
         if timeframe not in self.stages.keys():
             raise ValueError("Invalid timeframe")
@@ -2547,13 +2550,29 @@ class Recipe:
                     after_substances += step.frm[1].contents.get(substance, 0)
             after_substances += step.trash.get(substance, 0)
             delta += after_substances - before_substances
+            scale += after_substances + before_substances
+            for obj in (step.to[0], step.frm[0]):
+                if obj is not None and obj.name in dest_names:
+                    terms += 2 * obj.wells.size if isinstance(obj, Plate) else 2
 
+        # Material that only moved between two destinations need not cancel exactly in the sums above:
+        # only a decrease beyond what rounding can account for is a decrease.
+        if -Recipe._rounding_noise(scale, terms) <= delta < 0:
+            delta = 0
         if delta < 0:
             raise ValueError(
                 f"Destination containers contain {-delta} {from_unit} less of substance {substance}" +
                 " after stage {timeframe}. Did you specify the correct destinations?")
         precision = config.precisions[unit] if unit in config.precisions else config.precisions['default']
         return round(Unit.convert(substance, f'{delta} {from_unit}', unit), precision)
+
+    @staticmethod
+    def _rounding_noise(total: float, terms: int) -> float:
+        """
+        Bound on what rounding can contribute to a sum of `terms` stored amounts that add up to `total`:
+        each amount is a float (relative error) that was rounded to the internal precision (absolute error).
+        """
+        return total * 1e-12 + terms * 10 ** -config.internal_precision
 
     def get_container_flows(self, container: Container | Plate, timeframe: str = 'all', unit: str | None = None) -> \
             dict[str, (int | str)]:
